@@ -38,8 +38,9 @@ SmallLattice(n, a, wn) ==
         kind |-> "bool", AS |-> 1, A |-> [i \in 1..Len(ps) |-> <<1, 0>>], lat |-> [n |-> n, a |-> a] ]
 SmallLattices == { SmallLattice(<<3, 3>>, 10, 7), SmallLattice(<<3, 5>>, 10, 7), SmallLattice(<<5, 5>>, 10, 11),
                    SmallLattice(<<5, 3>>, 4, 3), SmallLattice(<<3, 3, 3>>, 10, 7), SmallLattice(<<3, 3, 5>>, 10, 7) }
+\* (evaluated once per sharded run: by shard 0)
 ASSUME LatticeLemma ==
-  \A lc \in SmallLattices :
+  SHARD # 0 \/ \A lc \in SmallLattices :
      /\ IsFullLattice(lc)
      /\ LET a == WHistLat(lc) b == WHist(lc) IN
         /\ a.w = b.w /\ a.cnt = b.cnt /\ a.tie = b.tie /\ a.nt = b.nt /\ b.cj = 0 /\ b.tr = 0
